@@ -64,7 +64,7 @@ def gen_atom(rng, simple_only=False):
     t = lambda: rng.randint(1, 6)
     kinds = list(SIMPLE) if simple_only else list(SIMPLE) + ["d_is_the_e", "e_le_sub_an", "exists_an", "d_in_conc_psubs", "forall_subs",
                                                              "forall_items_an", "forall_subs_vs_d", "or", "not", "dn_le_an_flat",
-                                                             "p_has_elem", "pred_default", "forall_over_query_with_forall", "forall_flat_free_parent", "pred_conc_arg", "pred_conc_arg"]
+                                                             "p_has_elem", "pred_default", "forall_over_query_with_forall", "forall_flat_free_parent", "pred_conc_arg", "pred_conc_arg", "p_has_elem_gt_k"]
     k = rng.choice(kinds)
     if k == "pk":
         return ["pk", op(), rng.randint(0, 4)]
@@ -116,7 +116,9 @@ def gen_case(rng):
             "c1": rng.choice([["en", ">=", 1], ["en", rng.choice([">", "<=", "!="]), rng.randint(1, 5)],
                               ["e_in_tuple", sorted(rng.sample(range(1, 7), rng.randint(2, 5)))],
                               # the element's condition written inside a sub-query over the already bound parent
-                              ["en_in_subquery", rng.choice([">", "<=", "!=", ">="]), rng.randint(1, 5)]]),
+                              ["en_in_subquery", rng.choice([">", "<=", "!=", ">="]), rng.randint(1, 5)],
+                              # ... and without any literal: the element compared with an attribute of its parent
+                              ["en_vs_pk_in_subquery", rng.choice([">", "<=", "!=", ">="])]]),
             "atoms": atoms, "sel": sel, "caching": rng.random() < 0.7,
             # the element spelled "an item of the parent": a nested description that selects the flatten and has no condition
             "e_spelling": "an_entity_flatten" if rng.random() < 0.2 else "flatten"}
@@ -136,6 +138,8 @@ def holds(a, p, x, d, es):
     k = a[0]
     if k == "pk":
         return OPS[a[1]](p.k, a[2])
+    if k == "en_vs_pk_in_subquery":
+        return OPS[a[1]](x.n, p.k)
     if k in ("en", "en_in_subquery"):
         return OPS[a[1]](x.n, a[2])
     if k == "dn":
@@ -152,6 +156,8 @@ def holds(a, p, x, d, es):
         return x.n > (2 if a[1] is None else a[1])      # f_nd(e) uses the default k=2, f_nd(e, k) the given one
     if k == "dn_le_an_flat":
         return any(d.n <= x2.n for x2 in p.items)       # d.n <= an(entity(flatten(p.items))).n : some element of the bound parent
+    if k == "p_has_elem_gt_k":
+        return any(x2.n > p.k for x2 in p.items)        # an(entity(p, flatten(p.items).n > p.k)): no literal, flatten not selected
     if k == "p_has_elem":
         return any(x2.n > a[1] for x2 in p.items)       # an(entity(p, flatten(p.items).n > t)) as a condition
     if k == "d_is_the_e":
@@ -212,7 +218,7 @@ def expected(case, es, ps):
 def all_selected(case):
     """every variable of the query is selected (then the row COUNT is specified too); a nested an() with several solutions
     brings a variable of its own that nobody selects"""
-    if tags(case) & {"e_le_sub_an", "exists_an", "dn_le_an_flat", "p_has_elem"}:
+    if tags(case) & {"e_le_sub_an", "exists_an", "dn_le_an_flat", "p_has_elem", "p_has_elem_gt_k"}:
         return False
     with_d = any(uses_d(a) for a in case["atoms"])
     return set(case["sel"]) == ({"p", "e", "d"} if with_d else {"p", "e"})
@@ -235,6 +241,8 @@ def build(case, es, ps, quant="an"):
                 return OPS[a[1]](p.k, a[2])
             if k == "en":
                 return OPS[a[1]](e.n, a[2])
+            if k == "en_vs_pk_in_subquery":
+                return an(entity(p, OPS[a[1]](e.n, p.k)))
             if k == "en_in_subquery":
                 return an(entity(p, OPS[a[1]](e.n, a[2])))
             if k == "dn":
@@ -251,6 +259,8 @@ def build(case, es, ps, quant="an"):
                 return f_nd(e) if a[1] is None else f_nd(e, a[1])
             if k == "dn_le_an_flat":
                 return d.n <= an(entity(flatten(p.items))).n
+            if k == "p_has_elem_gt_k":
+                return an(entity(p, flatten(p.items).n > p.k))
             if k == "p_has_elem":
                 return an(entity(p, flatten(p.items).n > a[1]))
             if k == "d_is_the_e":
@@ -370,7 +380,7 @@ def check(c, ctx):
 
 FEATURE_TAGS = {
     "C10": {"forall_subs", "forall_items_an", "forall_subs_vs_d", "forall_over_query_with_forall", "forall_flat_free_parent"},
-    "C15": {"d_is_the_e", "e_le_sub_an", "exists_an", "dn_le_an_flat", "p_has_elem", "forall_items_an", "en_in_subquery"},
+    "C15": {"d_is_the_e", "e_le_sub_an", "exists_an", "dn_le_an_flat", "p_has_elem", "p_has_elem_gt_k", "forall_items_an", "en_in_subquery", "en_vs_pk_in_subquery"},
     "C16": None,        # every IX query unnests a collection
     "C17": {"d_in_conc_p", "d_in_conc_esubs", "d_in_conc_psubs", "pred_conc_arg"},
 }
